@@ -592,6 +592,14 @@ def _pord(it, c, a):
     return NotImplemented
 
 
+@tmodel('Ord', 'cmp')
+def _ord_cmp(it, c, a):
+    x, y = deref(a[0]), deref(a[1])
+    if isinstance(x, IntV) and isinstance(y, IntV):
+        return it.binop('Cmp', x, y)
+    return NotImplemented
+
+
 @tmodel('Clone', 'clone')
 def _clone(it, c, a):
     v = deref(a[0])
